@@ -1,6 +1,7 @@
 package chain_test
 
 import (
+	"context"
 	stded25519 "crypto/ed25519"
 	"encoding/binary"
 	"fmt"
@@ -13,6 +14,7 @@ import (
 	"github.com/ava-labs/hypersdk/auth"
 	"github.com/ava-labs/hypersdk/chain"
 	"github.com/ava-labs/hypersdk/chain/chaintest"
+	"github.com/ava-labs/hypersdk/codec"
 	"github.com/ava-labs/hypersdk/crypto/bls"
 	"github.com/ava-labs/hypersdk/crypto/ed25519"
 	"github.com/ava-labs/hypersdk/crypto/secp256r1"
@@ -33,6 +35,36 @@ import (
 //        a=<payloadLen>:<compute>:<name/chunks+name/chunks|-> ...
 //        alen= bw= ac= aac= sp= spk= sz=
 // Output: est=<b,c,r,a,w|err> units=<b,c,r,a,w|err>
+
+// c14Action is a harness-defined action: `payload` zero bytes after the type id, and state keys
+// that are either fixed (`name/chunks`) or derived from the action id (`@name/chunks`: the
+// "create a new object under key(actionID)" pattern).
+type c14Action struct {
+	payload int
+	compute uint64
+	keyToks []string
+}
+
+func (*c14Action) GetTypeID() uint8                        { return 7 }
+func (a *c14Action) Bytes() []byte                         { return append([]byte{7}, make([]byte, a.payload)...) }
+func (a *c14Action) ComputeUnits(chain.Rules) uint64       { return a.compute }
+func (*c14Action) ValidRange(chain.Rules) (int64, int64)   { return -1, -1 }
+func (*c14Action) Execute(context.Context, chain.Rules, state.Mutable, int64, codec.Address, ids.ID) ([]byte, error) {
+	return nil, nil
+}
+
+func (a *c14Action) StateKeys(_ codec.Address, actionID ids.ID) state.Keys {
+	ks := state.Keys{}
+	for _, k := range a.keyToks {
+		name, c, _ := strings.Cut(k, "/")
+		kb := []byte(name)
+		if strings.HasPrefix(name, "@") {
+			kb = append(kb, actionID[:]...)
+		}
+		ks[string(keys.EncodeChunks(kb, uint16(verifh.U(c))))] = state.Read | state.Write
+	}
+	return ks
+}
 
 func c14Factories() map[string]chain.AuthFactory {
 	seed := make([]byte, 32)
@@ -118,6 +150,10 @@ func TestVerifC14(t *testing.T) {
 			ta := &chaintest.TestAction{
 				NumComputeUnits: verifh.U(p[1]), SpecifiedStateKeys: []string{}, SpecifiedStateKeyPermissions: []state.Permissions{},
 				ReadKeys: [][]byte{}, WriteKeys: [][]byte{}, WriteValues: [][]byte{make([]byte, verifh.U(p[0]))}, Start: -1, End: -1,
+			}
+			if strings.Contains(p[2], "@") {
+				actions = append(actions, &c14Action{payload: int(verifh.U(p[0])), compute: verifh.U(p[1]), keyToks: strings.Split(p[2], "+")})
+				continue
 			}
 			if p[2] != "-" {
 				for _, k := range strings.Split(p[2], "+") {
@@ -251,7 +287,14 @@ func c14Generate(r *verifh.Run) []string {
 			}
 		}
 	}
-	names := []string{"k0", "k1", "k2", "k3", "shared"}
+	// actions whose state keys are derived from the action id: every action has its own key
+	for _, an := range []string{"ed", "bls"} {
+		for _, n := range []int{1, 2, 3, 16} {
+			lines = append(lines, mk(an, 1_758_000_000_000, full, 1000, defRules, rep("10:1:@obj/3", n)))
+			lines = append(lines, mk(an, 1_758_000_000_000, full, 1000, defRules, rep("10:1:@obj/1+shared/2", n)))
+		}
+	}
+	names := []string{"k0", "k1", "k2", "k3", "shared", "@obj", "@new"}
 	n := r.N(400, 20000)
 	for i := 0; i < n; i++ {
 		an := []string{"ed", "secp", "bls"}[g.Intn(3)]
